@@ -183,6 +183,19 @@ class FakeSocket:
             self.w.log('SC')
 
 
+class FakeTLSSocket(FakeSocket):
+    """what `_connect` returns for a wss:// URL: the socket has the extra methods of `ssl.SSLSocket`.  lomond's session never needs
+    them (the selector, which uses `pending()`, is simulated): `unwrap()` behaves like a TLS peer that is gone and does not answer
+    the close_notify alert - the usual situation when a consumer walks away in mid-stream."""
+
+    def pending(self):
+        return 0
+
+    def unwrap(self):
+        import ssl
+        raise ssl.SSLError('simulated: the peer did not answer close_notify' + HOSTILE)
+
+
 class FakeSelector:
     def __init__(self, sock):
         self.w = sock.w
@@ -232,7 +245,7 @@ def make_session_class(world):
                 self._socket_fail('unable to connect')
             if c == 'otherfail':
                 raise RuntimeError('simulated connect failure' + HOSTILE)
-            sock = FakeSocket(world)
+            sock = (FakeTLSSocket if world.sc.url.lower().startswith('wss:') else FakeSocket)(world)
             world.session = self
             world.sock_open = True
             world.fsock = sock
